@@ -233,14 +233,22 @@ package resolver
 //@   # both the NSEC3 and the NSEC set pass through FilterRRsToZone(., chosenSigner) (verifyDNSSEC skips out-of-zone
 //@   # authority records, so an unfiltered foreign NSEC would be an unauthenticated proof), and every verifier and
 //@   # aggressive-use evaluator receives exactly that filtered set, the verified signer, and this response
-//@   assert at call internal/dnsutil.FilterRRsToZone#1: arg1 == chosenSigner && lastret("(*middleware/resolver.Resolver).verifyDNSSEC")
 //@   assert at call internal/dnsutil.FilterRRsToZone#2: arg1 == chosenSigner && lastret("(*middleware/resolver.Resolver).verifyDNSSEC")
-//@   assert at call middleware/resolver/dnssec.VerifyNameErrorForZoneWithWork#1: arg0 == resp && arg1 == lastret("internal/dnsutil.FilterRRsToZone#1") && arg2 == chosenSigner
-//@   assert at call middleware/resolver/dnssec.VerifyNODATAForZoneWithWork#1: arg0 == resp && arg1 == lastret("internal/dnsutil.FilterRRsToZone#1") && arg2 == chosenSigner
-//@   assert at call middleware/resolver/dnssec.EvaluateAggressiveNSEC3#1: arg1 == chosenSigner && arg2 == lastret("internal/dnsutil.FilterRRsToZone#1")
-//@   assert at call middleware/resolver/dnssec.VerifyNameErrorNSEC#1: arg0 == resp && arg1 == lastret("internal/dnsutil.FilterRRsToZone#2")
-//@   assert at call middleware/resolver/dnssec.VerifyNODATANSEC#1: arg0 == resp && arg1 == lastret("internal/dnsutil.FilterRRsToZone#2")
-//@   assert at call middleware/resolver/dnssec.EvaluateAggressiveNSEC#1: arg1 == chosenSigner && arg2 == lastret("internal/dnsutil.FilterRRsToZone#2")
+//@   assert at call internal/dnsutil.FilterRRsToZone#3: arg1 == chosenSigner && lastret("(*middleware/resolver.Resolver).verifyDNSSEC")
+//@   assert at call middleware/resolver/dnssec.VerifyNameErrorForZoneWithWork#1: arg0 == resp && arg1 == lastret("internal/dnsutil.FilterRRsToZone#2") && arg2 == chosenSigner
+//@   assert at call middleware/resolver/dnssec.VerifyNODATAForZoneWithWork#1: arg0 == resp && arg1 == lastret("internal/dnsutil.FilterRRsToZone#2") && arg2 == chosenSigner
+//@   assert at call middleware/resolver/dnssec.EvaluateAggressiveNSEC3#1: arg1 == chosenSigner && arg2 == lastret("internal/dnsutil.FilterRRsToZone#2")
+//@   assert at call middleware/resolver/dnssec.VerifyNameErrorNSEC#1: arg0 == resp && arg1 == lastret("internal/dnsutil.FilterRRsToZone#3")
+//@   assert at call middleware/resolver/dnssec.VerifyNODATANSEC#1: arg0 == resp && arg1 == lastret("internal/dnsutil.FilterRRsToZone#3")
+//@   assert at call middleware/resolver/dnssec.EvaluateAggressiveNSEC#1: arg1 == chosenSigner && arg2 == lastret("internal/dnsutil.FilterRRsToZone#3")
+//@   # C01 ("padded with foreign records", "AD only when every RRset validated") / C07: before anything reads them, the
+//@   # authority section is cut down to the records owned inside the zone whose servers were asked, and the additional
+//@   # section to those plus OPT - what validation would skip is not there to be relayed
+//@   assert at call internal/dnsutil.FilterRRsToZone#1: arg0 == old(resp.Ns) && arg1 == zone && calls("(*middleware/resolver.Resolver).findRRSIGSigners") == 0
+//@   assert at store dns.Msg.Ns#1: value == lastret("internal/dnsutil.FilterRRsToZone#1") && target == resp
+//@   assert at call middleware/resolver.recordsInZoneAndOPT#1: arg0 == old(resp.Extra) && arg1 == zone
+//@   assert at store dns.Msg.Extra#1: value == lastret("middleware/resolver.recordsInZoneAndOPT") && target == resp
+//@   assert at call (*middleware/resolver.Resolver).findRRSIGSigners#1: calls("internal/dnsutil.FilterRRsToZone") == 1 && calls("middleware/resolver.recordsInZoneAndOPT") == 1
 //@
 //@ # referrals: with CD=0 validation needs trust anchors (fail closed); a verified referral yields the child's signed DS
 //@ # set, or an empty DS set only after a denial proof from the validated signer zone verified; otherwise an error
@@ -791,3 +799,11 @@ package resolver
 //@   assert at return#1: result == nil && lastret("(*github.com/miekg/dns.Msg).IsEdns0") == nil
 //@   assert at return#2: result == subnet && ok
 //@   assert at return#3: result == nil && exhausted(1)
+
+//@ # what recordsInZoneAndOPT keeps is an OPT record or a record owned inside the zone
+//@ func recordsInZoneAndOPT
+//@   abstract
+//@   nosafety all pre
+//@   assert at append#1: hdrOf(rr).Rrtype == dns.TypeOPT || lastret("internal/dnsutil.NameInZone")
+//@   assert at call internal/dnsutil.NameInZone#1: arg1 == z
+
